@@ -523,12 +523,20 @@ fn convenience_part(t: &mut Tally, long: usize) {
     for codec in oracle::frames::VCODECS {
         for (ac, rate) in [(None, 0u32), (Some(ACodec::AacLc), 44100), (Some(ACodec::Opus), 48000), (Some(ACodec::AacLc), 48000)] {
             for (durs, n) in [(vec![33u32], 5usize), (vec![33, 34, 33], 6), (vec![1, 1000, 40], 6), (vec![40], long)] {
+              // audio frame lengths: constant, Opus 10/20/40/60 ms, alternating AAC frame sizes;
+              // with and without rejected convenience calls (empty data) in between, which must
+              // leave the automatic clocks alone (C05) so that the explicit path simply omits them
+              for (spat, rejects) in [(vec![1024u32], false), (vec![480, 960, 1920, 2880], false), (vec![1024, 2048], false), (vec![1024], true), (vec![960, 480], true)] {
+                if n > 10 && (spat.len() > 1 || rejects) {
+                    continue;
+                }
                 let mut cfg = Cfg::basic(codec, ac, n % 2 == 0);
                 if let Some(a) = cfg.audio.as_mut() {
                     a.rate = rate;
                 }
                 let mut conv = vec![];
                 let mut expl = vec![];
+                let mut inserted: Vec<usize> = vec![];
                 let mut ms_total: u64 = 0;
                 let mut samples_total: u64 = 0;
                 let mut ok = true;
@@ -537,6 +545,14 @@ fn convenience_part(t: &mut Tally, long: usize) {
                     let (vd, _) = video_frame(codec, key, i == 0, i as u32 + 1, 4 + i % 3);
                     let vd = Bytes::new(vd);
                     let d = durs[i % durs.len()];
+                    if rejects && i % 2 == 1 {
+                        conv.push(Op::EV { data: Bytes::new(vec![]), dur_ms: 500 });
+                        inserted.push(conv.len() - 1);
+                        if ac.is_some() {
+                            conv.push(Op::EA { data: Bytes::new(vec![]), samples: 4096 });
+                            inserted.push(conv.len() - 1);
+                        }
+                    }
                     conv.push(Op::EV { data: vd.clone(), dur_ms: d });
                     let pts = ms_total as f64 / 1000.0;
                     ok &= tick_is_robust(pts) && tick(pts) == ms_total * 90;
@@ -546,11 +562,12 @@ fn convenience_part(t: &mut Tally, long: usize) {
                     ms_total += d as u64;
                     if let Some(a) = ac {
                         let ad = Bytes::new(audio_frame(a, i as u32, 5).0);
-                        conv.push(Op::EA { data: ad.clone(), samples: 1024 });
+                        let ns = spat[i % spat.len()];
+                        conv.push(Op::EA { data: ad.clone(), samples: ns });
                         let apts = samples_total as f64 / rate as f64;
                         ok &= tick_is_robust(apts);
                         expl.push(Op::WA { pts: T(apts), data: ad });
-                        samples_total += 1024;
+                        samples_total += ns as u64;
                     }
                 }
                 k += 1;
@@ -565,12 +582,16 @@ fn convenience_part(t: &mut Tally, long: usize) {
                 t.outcome(oracle::report::h64(&e1.bytes));
                 // audio may be rejected in both paths alike (e.g. audio before video at equal
                 // cursor): compare outcomes position by position
-                let r1: Vec<bool> = e1.results.iter().map(|r| r.is_ok()).collect();
+                let r1: Vec<bool> = e1.results.iter().enumerate().filter(|(i, _)| !inserted.contains(i)).map(|(_, r)| r.is_ok()).collect();
                 let r2: Vec<bool> = e2.results.iter().map(|r| r.is_ok()).collect();
+                if inserted.iter().any(|&i| e1.results[i].is_ok()) {
+                    t.violation("C17/path/convenience-accepts-empty-frame", (300, k), || format!("{}: encode_video/encode_audio accepted an empty frame", cfg.short()), || json!({"engine": "E1-convenience", "cfg": cfg}));
+                }
                 if r1 != r2 || e1.bytes != e2.bytes {
                     let pos = e1.bytes.iter().zip(&e2.bytes).position(|(a, b)| a != b);
-                    t.violation("C17/path/convenience-vs-explicit", (300, k), || format!("{} durations {durs:?} x {n} frames: encode_video/encode_audio and explicit writes at the same ticks differ (accept vectors equal: {}, first differing byte {pos:?})", cfg.short(), r1 == r2), || json!({"engine": "E1-convenience", "cfg": cfg, "durations_ms": durs, "frames": n}));
+                    t.violation("C17/path/convenience-vs-explicit", (300, k), || format!("{} durations {durs:?} x {n} frames, audio frame lengths {spat:?}, rejected calls in between: {rejects}: encode_video/encode_audio and explicit writes at the same ticks differ (accept vectors equal: {}, first differing byte {pos:?})", cfg.short(), r1 == r2), || json!({"engine": "E1-convenience", "cfg": cfg, "durations_ms": durs, "frames": n, "audio_samples": spat, "rejected_calls": rejects}));
                 }
+              }
             }
         }
     }
@@ -853,7 +874,7 @@ pub fn check(ctx: &Ctx) -> i32 {
         &tally,
         Meta {
             level: "model_checking",
-            rule: "thread schedules: real OS threads run under a baton scheduler with scheduling points before every public call, inside every sink write and around every invariant-log call; all schedules up to the stated preemption bound are enumerated by stateless DFS (counts in 'counters'), each program's results, output bytes and thread-local invariant log must equal its solo run, and replaying a schedule must reproduce its record; 4 threads: every order of whole programs; 8 and 16 threads: round-robin. Same thread: every interleaving at call granularity of every ordered pair of 4 programs on one thread. Equivalent paths: for every history of a bounded accepted-only set x 20 configurations, the output of a reference run is compared byte-for-byte with a second instance, the four other finish entry points, the builder aliases, audio codec None, six sink types (incl. sinks accepting 1 or 5 bytes per write), and a muxer moved to another thread halfway; builder order: every permutation of the setter calls (video, audio, fast start, metadata) x alias choices x 16 configurations against the canonical order, and every setter called twice (a decoy value, then the real one; either alias; audio codec None to switch audio off again); encode_video/encode_audio vs explicit writes at exactly computed ticks for duration patterns up to the long run. Wall clock: the same digest of outputs under an LD_PRELOAD clock offset of 0 and +10 years (child processes). The auto-trait implication (Muxer<W>: Send for every W: Send; Sync likewise) is a generic function in this harness: it is the compiler's verdict, a build failure of the harness otherwise.".into(),
+            rule: "thread schedules: real OS threads run under a baton scheduler with scheduling points before every public call, inside every sink write and around every invariant-log call; all schedules up to the stated preemption bound are enumerated by stateless DFS (counts in 'counters'), each program's results, output bytes and thread-local invariant log must equal its solo run, and replaying a schedule must reproduce its record; 4 threads: every order of whole programs; 8 and 16 threads: round-robin. Same thread: every interleaving at call granularity of every ordered pair of 4 programs on one thread. Equivalent paths: for every history of a bounded accepted-only set x 20 configurations, the output of a reference run is compared byte-for-byte with a second instance, the four other finish entry points, the builder aliases, audio codec None, six sink types (incl. sinks accepting 1 or 5 bytes per write), and a muxer moved to another thread halfway; builder order: every permutation of the setter calls (video, audio, fast start, metadata) x alias choices x 16 configurations against the canonical order, and every setter called twice (a decoy value, then the real one; either alias; audio codec None to switch audio off again); encode_video/encode_audio vs explicit writes at exactly computed ticks for duration patterns up to the long run, audio frame lengths {constant, 10/20/40/60 ms, alternating} and rejected convenience calls (empty frames) in between. Wall clock: the same digest of outputs under an LD_PRELOAD clock offset of 0 and +10 years (child processes). The auto-trait implication (Muxer<W>: Send for every W: Send; Sync likewise) is a generic function in this harness: it is the compiler's verdict, a build failure of the harness otherwise.".into(),
             bound: format!("preemption bounds as listed per setup in counters; thorough={}", ctx.thorough),
             exhaustive: true,
             assumptions: vec![
